@@ -106,9 +106,43 @@ fn h_tcoef_table<S: Src>(s: &mut S) {
     s.reach();
 }
 
+include!("/verif/hooks/h263/parser/block_assembly.rs");
+
 #[cfg(kani)]
 mod proofs {
     use super::*;
+    #[kani::proof]
+    #[kani::unwind(7)]
+    #[kani::stub(H263Reader::read_bits, H263Reader::verif_blk_read_bits)]
+    #[kani::stub(H263Reader::read_signed_bits, H263Reader::verif_blk_read_signed_bits)]
+    #[kani::stub(H263Reader::read_vlc, H263Reader::verif_blk_read_vlc)]
+    fn blk_assembly() {
+        blkasm::blk_assembly::<false, 3>()
+    }
+    #[kani::proof]
+    #[kani::unwind(7)]
+    #[kani::stub(H263Reader::read_bits, H263Reader::verif_blk_read_bits)]
+    #[kani::stub(H263Reader::read_signed_bits, H263Reader::verif_blk_read_signed_bits)]
+    #[kani::stub(H263Reader::read_vlc, H263Reader::verif_blk_read_vlc)]
+    fn blk_assembly_err() {
+        blkasm::blk_assembly::<true, 3>()
+    }
+    #[kani::proof]
+    #[kani::unwind(7)]
+    #[kani::stub(H263Reader::read_bits, H263Reader::verif_blk_read_bits)]
+    #[kani::stub(H263Reader::read_signed_bits, H263Reader::verif_blk_read_signed_bits)]
+    #[kani::stub(H263Reader::read_vlc, H263Reader::verif_blk_read_vlc)]
+    fn blk_assembly_n4() {
+        blkasm::blk_assembly::<false, 4>()
+    }
+    #[kani::proof]
+    #[kani::unwind(7)]
+    #[kani::stub(H263Reader::read_bits, H263Reader::verif_blk_read_bits)]
+    #[kani::stub(H263Reader::read_signed_bits, H263Reader::verif_blk_read_signed_bits)]
+    #[kani::stub(H263Reader::read_vlc, H263Reader::verif_blk_read_vlc)]
+    fn blk_assembly_err_n4() {
+        blkasm::blk_assembly::<true, 4>()
+    }
     #[kani::proof]
     #[kani::unwind(260)]
     fn tcoef_table() {
